@@ -280,7 +280,7 @@ def _planner(ctx, prog, dual):
                 c.split('::')[-1] in ('to_vec', 'random_angles', 'expect', 'unwrap', 'as_ref', 'constraints', 'deref', 'into', 'to_owned') for c in chain)
     ctx.check(ok, 'R13.2', 'sampler', pp.where(bi), pp.path, 'random samples must come from constraints().random_angles() of the planning robot', found=found, detail=found or '')
     # R13.5 conversion
-    conv = [b for b in prog.bodies.values() if b.path.endswith('RRTPlanner::convert_result')]
+    conv = [b for b in prog.bodies.values() if b.path.startswith('rrt::') and b.kind != 'Closure' and len(util.sig(b)) == 3 and 'Vec<f64>>' in util.sig(b)[2] and 'Result' in util.sig(b)[2]]
     if ctx.check(len(conv) == 1, 'R13.5', 'convert/exists', pp.where(0), pp.path, 'result conversion helper not found'):
         c = conv[0]
         ctx.fn(c)
